@@ -296,11 +296,28 @@ class Program:
         self.macros = {}
         self.fns = {}
         self.crates = []
+        raws = {}
+        aliases = {}
         for f in sorted(os.listdir(facts_dir)):
             if not f.endswith(".json"):
                 continue
             with open(os.path.join(facts_dir, f)) as fh:
-                d = json.load(fh)
+                # raw identifiers (`mod r#static`) print as `r#static` in paths: normalise
+                raws[f] = fh.read().replace("::r#", "::")
+            m = re.search(r'"aliases":\{([^{}]*)\}', raws[f])
+            if m and m.group(1).strip():
+                aliases.update(json.loads("{" + m.group(1) + "}"))
+        # other crates name re-exported items by their visible path (`humphrey::http::Response`):
+        # rewrite to the canonical definition path so that one item has one name in all facts
+        self.aliases = aliases
+        if aliases:
+            rx = re.compile("(" + "|".join(re.escape(a) for a in sorted(aliases, key=len, reverse=True)) + r")(?![A-Za-z0-9_])")
+        for f in sorted(raws):
+            text = raws[f]
+            if aliases:
+                head, sep, tail = text.rpartition('"aliases":')
+                text = rx.sub(lambda m: aliases[m.group(1)], head) + sep + tail
+            d = json.loads(text)
             crate = d["crate"] + (".bin" if f.endswith(".bin.json") else "")
             if len(d["bodies"]) < len(d["elab"]) or (d["hir"] and not d["bodies"]):
                 raise RuntimeError(f"facts file {f} has {len(d['bodies'])} MIR bodies for {len(d['elab'])} "
@@ -1039,6 +1056,18 @@ def _describe_def(prog, body, d, depth, seen):
     if k == "repeat":
         return ("repeat", describe(prog, body, rv["o"], depth + 1, seen), rv.get("n"))
     return ("other", k)
+
+
+def describe_r(prog, body, x):
+    """describe(), with closure/coroutine upvars replaced by their parent-side descriptions."""
+    d = describe(prog, body, x)
+    cur = body
+    n = 0
+    while cur is not None and cur.kind in ("closure", "coroutine") and n < 4 and desc_contains(d, lambda y: y[0] == "upvar"):
+        d = resolve_upvars(prog, cur, d)
+        cur = prog.bodies.get(cur.parent)
+        n += 1
+    return d
 
 
 def is_variant(desc, adt_suffix, name):
